@@ -422,6 +422,27 @@ def NoStaleReuse (s : Sess) : List Ev → Prop
      | .publish true _ m => m.qos = 1 → freeId s.pending s.nextID ∉ s.queue
      | _ => True) ∧ NoStaleReuse (step s e).1 r
 
+def decPendBound : ∀ (tr : List Ev) (s : Sess), Decidable (PendBound s tr)
+  | [], _ => isTrue trivial
+  | .publish true _ _ :: r, s =>
+    @instDecidableAnd _ _ (inferInstanceAs (Decidable (s.pending.length < idMod))) (decPendBound r _)
+  | .publish false _ _ :: r, _ => @instDecidableAnd _ _ (isTrue trivial) (decPendBound r _)
+  | .puback _ :: r, _ => @instDecidableAnd _ _ (isTrue trivial) (decPendBound r _)
+  | .tick _ :: r, _ => @instDecidableAnd _ _ (isTrue trivial) (decPendBound r _)
+
+instance (s : Sess) (tr : List Ev) : Decidable (PendBound s tr) := decPendBound tr s
+
+def decNoStale : ∀ (tr : List Ev) (s : Sess), Decidable (NoStaleReuse s tr)
+  | [], _ => isTrue trivial
+  | .publish true _ m :: r, s =>
+    @instDecidableAnd _ _ (inferInstanceAs (Decidable (m.qos = 1 → freeId s.pending s.nextID ∉ s.queue)))
+      (decNoStale r _)
+  | .publish false _ _ :: r, _ => @instDecidableAnd _ _ (isTrue trivial) (decNoStale r _)
+  | .puback _ :: r, _ => @instDecidableAnd _ _ (isTrue trivial) (decNoStale r _)
+  | .tick _ :: r, _ => @instDecidableAnd _ _ (isTrue trivial) (decNoStale r _)
+
+instance (s : Sess) (tr : List Ev) : Decidable (NoStaleReuse s tr) := decNoStale tr s
+
 theorem qi_run (tr : List Ev) : ∀ {s : Sess} {u : List (Id × Msg)}, QI s u → PendBound s tr →
     QI (run s tr) (uRun s u tr) := by
   induction tr with
